@@ -148,6 +148,37 @@ struct MonT : PostLogT<PoolOf<PP>>, momo::stdish::unsynchronized_pool_allocator<
 	~MonT() { armed = true; wp = this->mMemPool; G().pre(); }
 	MonT select_on_container_copy_construction() const { return MonT(SoccTag(), *this); }
 
+	// construct / destroy / == / != / get_base_allocator: forwarded to the real allocator; the model says they leave the allocator
+	// state untouched (events T = OpElem, Q = OpQuery with the comparison result)
+	template<class V, class... Args> void construct(V* p, Args&&... args)
+	{
+		G().pre(); P::construct(p, std::forward<Args>(args)...);
+		G().ev("T " + std::to_string(hid), "- " + tail() + " 1 1 1");
+	}
+	template<class V> void destroy(V* p) noexcept
+	{
+		G().pre(); P::destroy(p);
+		G().ev("T " + std::to_string(hid), "- " + tail() + " 1 1 1");
+	}
+	friend bool operator==(const MonT& a, const MonT& b) noexcept
+	{
+		G().pre(); bool r = (static_cast<const P&>(a) == static_cast<const P&>(b));
+		G().ev("Q " + std::to_string(a.hid) + " " + std::to_string(b.hid), std::string(r ? "Q1 " : "Q0 ") + a.tail() + " 1 1 1");
+		return r;
+	}
+	friend bool operator!=(const MonT& a, const MonT& b) noexcept
+	{
+		G().pre(); bool r = (static_cast<const P&>(a) != static_cast<const P&>(b));
+		G().ev("Q " + std::to_string(a.hid) + " " + std::to_string(b.hid), std::string(r ? "Q0 " : "Q1 ") + a.tail() + " 1 1 1");
+		return r;
+	}
+	Base get_base_allocator() const noexcept
+	{
+		G().pre(); Base r = P::get_base_allocator();
+		G().ev("Q " + std::to_string(hid) + " " + std::to_string(hid), std::string(r.id() == BASE_ID ? "Q1 " : "Q0 ") + tail() + " 1 1 1");
+		return r;
+	}
+
 	T* allocate(size_t n)
 	{
 		Tracer& g = G();
